@@ -186,6 +186,22 @@ class EmbedModel(object):
         return dict(self._content)
 
 
+def _strip_flag(t):
+    """`flag and X` / `X if flag else None` stand for X where they are dereferenced (the path has found them truthy)"""
+    while isinstance(t, tuple) and t and t[0] == 'B' and t[1] == 'and' and len(t) == 4:
+        t = t[3]
+    return t
+
+
+def _star_name(model, t):
+    """t = <star slot of either side>.name -> (side, kind)"""
+    if isinstance(t, tuple) and t and t[0] == 'A' and t[2] == 'name':
+        b = model.sides.bucket(_strip_flag(t[1]))
+        if b is not None and model.proto.kind_at(b[1]) in ('VP', 'VK'):
+            return b
+    return None
+
+
 def embed_guards(model, p):
     """canonical guards of a top-level path of _embed"""
     g = {}
@@ -193,6 +209,25 @@ def embed_guards(model, p):
     proto = model.proto
     for atom, pol in p.lits:
         k = atom[0]
+        if k == 'eq' and len(atom) == 3 and _star_name(model, atom[1]) and _star_name(model, atom[2]):
+            # "the two star parameters are spelled alike": a fact about the inputs that nothing else determines
+            g[('same_star_name', proto.kind_at(_star_name(model, atom[1])[1]))] = pol
+            continue
+        if k == 'in' and _star_name(model, atom[1]) and model.sides.bucket(atom[2]) is not None and model.sides.bucket(atom[2])[1] == 5:
+            # "the provenance map of a side has an entry spelled like that star": likewise a fact about the inputs
+            g[('star_name_in_src', model.sides.bucket(atom[2])[0], proto.kind_at(_star_name(model, atom[1])[1]))] = pol
+            continue
+        if k == 'truthy' and atom[1][0] == 'B' and atom[1][1] == 'and' and len(atom[1]) == 4:
+            # `flag and star`: both conjuncts when true; undetermined which one fails when false
+            f_, x_ = atom[1][2], atom[1][3]
+            bx = model.sides.bucket(x_)
+            if f_[0] == 'P' and f_[1] in (model.flag_vp, model.flag_vk) and bx is not None:
+                if pol:
+                    g[('flag', f_[1])] = True
+                    g[('star', bx[0], proto.kind_at(bx[1]))] = True
+                else:
+                    g[('flag_and_star', f_[1])] = False
+                continue
         if k == 'truthy':
             b = model.sides.bucket(atom[1])
             if b is not None:
@@ -719,16 +754,20 @@ def rule_embed_sources(check, model, rules):
             if e.kind == 'mut' and e.target == src and e.op in ('pop', 'delitem') and e.args:
                 k0 = e.args[0]
                 if k0[0] == 'A' and k0[2] == 'name':
-                    b = model.sides.bucket(k0[1])
+                    b = model.sides.bucket(_strip_flag(k0[1]))
                     if b is not None and b[0] == 'outer':
-                        # is an inner parameter of the same kind retained in the result?
-                        retained = model.sides.bucket(items[b[1]]) == ('inner', b[1]) or items[b[1]][0] == 'IF'
-                        if retained:
+                        # the union holds the inner signature's entries too, under whatever names inner uses -- a star of the
+                        # same name, but just as well an ordinary parameter called `args`/`kwargs`.  Removing by the outer
+                        # star's name is only harmless when the path has established that inner has no entry of that name
+                        excluded = any(a[0] == 'in' and a[1] == k0 and not pol and model.sides.bucket(a[2]) == ('inner', 5)
+                                       for a, pol in p.lits)
+                        if not excluded:
                             bad = True
                             check.violation(
                                 rules['union'], site(None, e.node),
                                 'the forwarded outer %s entry is removed by name from the union of both provenance maps: '
-                                'an inner %s of the same name, which the result keeps, loses its entry'
+                                'an inner parameter of the same name (a %s, or an ordinary parameter spelled like it), which the result '
+                                'keeps, loses its entry'
                                 % (proto.kind_at(b[1]), proto.kind_at(b[1])),
                                 key='_signatures:_embed|union-pop|%s' % norm(e.node), guards=gtext, effect=repr(e),
                                 witness="embed(s('a, *args, **kwargs'), s('x, *args, **kwargs')).sources has no 'args'/'kwargs' entry")
